@@ -17,6 +17,8 @@ open TFVerif.C12
 #print axioms fitted_year_ge_min
 #print axioms embdim_matches_offsets
 #print axioms bucket_index_in_range
+#print axioms encoding_never_fails
+#print axioms stypewise_accepts_materialized
 #print axioms no_nan_out
 #print axioms denominators_nonzero
 #print axioms nonmissing_finite_before_nan_to_num
